@@ -251,7 +251,8 @@ def check_ramp(project: Project, rep):
         rep.unmodelled("GL-RAMP", fi, fi.node, "no per-node list receives samples inside a per-bar loop (the landscape is "
                                                "sampled in a way this rule does not model)")
         return "unmodelled"
-    bases = {id(ev["base"]) for ev in sites}
+    from ..core.values import bucket_root as _root
+    bases = {id(_root(ev["base"])) for ev in sites}
     if len(bases) != 1:
         rep.unmodelled("GL-RAMP", fi, fi.node, "samples are appended to more than one family of per-node lists")
         return "unmodelled"
@@ -328,35 +329,47 @@ def check_ramp(project: Project, rep):
             n = sym.mul(n, sym.fn("max", key[1] if isinstance(key[1], sym.Expr) else sym.Num(key[1]), sym.ZERO))
         return n
 
+    def primed(rc):
+        """the same site with its inner loop variables renamed (a second, independent trip)"""
+        idx, cond, inner = rc["idx"], rc["cond"], []
+        for iv, key in rc["inner"]:
+            iv2 = iv + "'"
+            idx = sym.subst_ivar(idx, iv, (iv2, 0))
+            cond = sym.subst_ivar(cond, iv, (iv2, 0))
+            key2 = ("range", sym.subst_ivar(key[1], iv, (iv2, 0))) if isinstance(key[1], sym.Expr) else key
+            inner = [(a, ("range", sym.subst_ivar(k_[1], iv, (iv2, 0))) if isinstance(k_[1], sym.Expr) else k_) for a, k_ in inner]
+            inner.append((iv2, key2))
+        return dict(idx=idx, cond=cond, inner=inner)
+
     obligations = []
     for k, rc in enumerate(recs):
         tent = sym.mul(step, sym.fn("min", sym.sub(rc["idx"], NB), sym.sub(ND, rc["idx"])))
         close = sym.Cmp("<=", sym.fn("abs", sym.sub(rc["val"], tent)),
                         sym.mul(sym.Num(1e-9), sym.add(sym.ONE, sym.fn("abs", tent))))
         inside = sym.And(sym.Cmp("<", NB, rc["idx"]), sym.Cmp("<", rc["idx"], ND))
-        obligations.append(("sound-pos", rc, sym.Or(sym.Not(rc["cond"]), forall(rc["inner"], inside))))
-        obligations.append(("sound-val", rc, sym.Or(sym.Not(rc["cond"]), forall(rc["inner"], sym.Or(sym.Not(inside), close)))))
+        obligations.append(("sound-pos", rc, forall(rc["inner"], sym.Or(sym.Not(rc["cond"]), inside))))
+        obligations.append(("sound-val", rc, forall(rc["inner"], sym.Or(sym.Not(rc["cond"]), sym.Not(inside), close))))
     total = sym.ZERO
     for rc in recs:
-        c = count(rc["inner"])
-        if c is None:
-            rep.unmodelled("GL-RAMP", fi, rc["ev"]["node"], "trip count of an inner loop depends on an outer inner loop")
-            return "unmodelled"
-        total = sym.add(total, sym.ITE(rc["cond"], c, sym.ZERO))
+        body = sym.ITE(rc["cond"], sym.ONE, sym.ZERO)
+        for iv, key in reversed(rc["inner"]):
+            body = sym.Sum(iv, key, body)
+        total = sym.add(total, body)
     want = sym.fn("max", sym.sub(sym.sub(ND, NB), sym.ONE), sym.ZERO)
     obligations.append(("count", None, sym.Cmp("==", total, want)))
     for a in range(len(recs)):
-        for b in range(a + 1, len(recs)):
-            ra, rb = recs[a], recs[b]
+        for b in range(a, len(recs)):
+            ra, rb = recs[a], primed(recs[b])
             differ = sym.Cmp("!=", ra["idx"], rb["idx"])
-            obligations.append(("disjoint", ra, sym.Or(sym.Not(sym.And(ra["cond"], rb["cond"])),
-                                                       forall(ra["inner"], forall(rb["inner"], differ)))))
-    # a loop that appends in every trip must not append to the same position twice
-    for rc in recs:
-        if rc["inner"]:
-            iv, key = rc["inner"][-1]
-            nxt = sym.subst_ivar(rc["idx"], iv, (iv, 1))
-            obligations.append(("injective", rc, sym.Or(sym.Not(rc["cond"]), forall(rc["inner"], sym.Cmp("!=", rc["idx"], nxt)))))
+            if a == b:
+                if not ra["inner"]:
+                    continue
+                same_trip = sym.And(*[sym.Cmp("==", sym.IV(iv), sym.IV(iv + "'")) for iv, _ in ra["inner"]])
+                body = sym.Or(same_trip, sym.Not(sym.And(ra["cond"], rb["cond"])), differ)
+                obligations.append(("injective", recs[a], forall(ra["inner"], forall(rb["inner"], body))))
+            else:
+                body = sym.Or(sym.Not(sym.And(ra["cond"], rb["cond"])), differ)
+                obligations.append(("disjoint", recs[a], forall(ra["inner"], forall(rb["inner"], body))))
     verdict = _test(obligations)
     if verdict[0] == "ok":
         rep.discharged("GL-RAMP", fi, recs[0]["ev"]["node"],
